@@ -85,7 +85,9 @@ def docs():
         # member names that begin with a reserved word, or with the filter-context identifier, followed by further name
         # characters (docs/syntax.md reserves only names that match a word exactly)
         {"in-stock": 1, "and-so": 2, "true-north": 3, "null-x": 4, "nil-z": 5, "or-else": 6, "_foo": 7, "contains-x": 9,
-         "undefined-x": 10, "missing-y": 11, "False-w": 12, "None-q": 13, "not-x": 14, "arr": ["a/b", "ab", "a[/]b"]},
+         "undefined-x": 10, "missing-y": 11, "False-w": 12, "None-q": 13, "not-x": 14, "arr": ["a/b", "ab", "a[/]b"],
+         # (a member named like a word operator directly followed by a negative number)
+         "w": {"in-1": 1, "or-1": 2, "b": -1}},
     ]
 
 
@@ -231,6 +233,15 @@ def alias_pairs():
                    ("$.arr[?@.a or 2]", "$.arr[?@.a || 2]"), ("$.arr[?@.* == nil]", "$.arr[?@.* == null]"),
                    ("$.arr[?True]", "$.arr[?true]"), ("$.arr[?not none]", "$.arr[?!null]")):
         out.append(("rejected:" + ("<>" if "<>" in a_ else "words"), a_, s_))
+    # a word operator directly followed by a negative number (no blank): the hyphen starts the number, not a longer name
+    out.append(("and/or/not", "$[?@.b == -2 or-1 == @.b]", "$[?@.b == -2 ||-1 == @.b]"))
+    out.append(("and/or/not", "$[?@.b and-1 == @.b]", "$[?@.b &&-1 == @.b]"))
+    out.append(("in/contains", "$[?@.b in-1]", "$[?-1 contains @.b]"))
+    out.append(("in/contains", "$[?@ in-1]", "$[?-1 contains @]"))
+    # blank space after the parenthesis that follows a word operator is JSONPath blank space only, as after '!('
+    for ch in ("\x0c", "\x0b", "\u00a0", "\u3000"):
+        out.append(("rejected:words", "$.arr[?not(%s@.a)]" % ch, "$.arr[?!(%s@.a)]" % ch))
+        out.append(("rejected:words", "$.arr[?@.a and(%s@.b)]" % ch, "$.arr[?@.a &&(%s@.b)]" % ch))
     for nm in ("in-stock", "and-so", "true-north", "null-x", "nil-z", "or-else", "_foo", "contains-x", "undefined-x", "missing-y",
                "False-w", "None-q", "not-x"):
         out.append(("bare-names", "$[%s]" % nm, "$['%s']" % nm))
